@@ -632,7 +632,44 @@ impl World for FfiWorld {
             w[k] = if c.below(5) == 0 { 0 } else { base[k] * (1 + c.below(3) as u32) };
         }
         w[F_VAR as usize] = w[F_VAR as usize].max(4);
-        let len = 5 + o.below(if thorough { 120 } else { 60 });
+        // one small-manager run in 300 is a marathon: thousands of calls on ONE manager, dominated by counting queries on
+        // ever new roots, with operands also taken from far back in the history (whatever the wrapper keeps per manager,
+        // per root or per call has to survive thousands of distinct keys and their later repetition)
+        let marathon = n0 <= 6 && c.below(300) == 0;
+        if marathon {
+            cfg.insert("marathon".into(), 1);
+            let mut mw = [0u32; NK];
+            for (k, x) in [(F_VAR, 4), (F_NEG, 3), (F_AND, 8), (F_OR, 8), (F_ITE, 6), (F_EQ, 1), (F_COUNT, 3), (F_MODEL_COUNT, 24), (F_WMC_REAL, 4), (F_WMC_COMPLEX, 1), (F_CHILDREN, 1)] {
+                mw[k as usize] = x;
+            }
+            // blocks: a fresh root (the disjunction of two random cubes of 2-4 literals) is built and counted; now and then
+            // a root from anywhere in the history is counted again, or some other query / operation is issued
+            let at = |i: u64| (i << 1) as i64;
+            let cube = |o: &mut Rng, ops: &mut Vec<Op>| -> u64 {
+                let k = 2 + o.below(3);
+                ops.push(Op { c: 0, k: F_VAR, a: [o.below(8) as i64, 0, 0, o.below(2) as i64] });
+                for _ in 1..k {
+                    ops.push(Op { c: 0, k: F_VAR, a: [o.below(8) as i64, 0, 0, o.below(2) as i64] });
+                    ops.push(Op { c: 0, k: F_AND, a: [at(0), at(1), 0, 0] });
+                }
+                1 + 2 * (k - 1)
+            };
+            for _ in 0..(1100 + o.below(900)) {
+                cube(&mut o, &mut ops);
+                let pushed = cube(&mut o, &mut ops);
+                ops.push(Op { c: 0, k: F_OR, a: [at(0), at(pushed), 0, 0] });
+                ops.push(Op { c: 0, k: F_MODEL_COUNT, a: [at(0), 0, 0, 0] });
+                if o.below(2) == 0 {
+                    ops.push(Op { c: 0, k: F_MODEL_COUNT, a: [at(o.below(40_000)), 0, 0, 0] });
+                }
+                if o.below(4) == 0 {
+                    let k = o.weighted(&mw) as u8;
+                    let arg = |o: &mut Rng| if o.below(3) == 0 { at(o.below(40_000)) } else { gen_operand(o) };
+                    ops.push(Op { c: 0, k, a: [arg(&mut o), arg(&mut o), arg(&mut o), o.below(2) as i64] });
+                }
+            }
+        }
+        let len = if marathon { 0 } else { 5 + o.below(if thorough { 120 } else { 60 }) };
         for _ in 0..len {
             let k = o.weighted(&w) as u8;
             ops.push(Op { c: 0, k, a: [gen_operand(&mut o), gen_operand(&mut o), gen_operand(&mut o), o.below(2) as i64] });
